@@ -635,6 +635,75 @@ theorem invA_evEnd (g : Cfg) (s : S) (hi : InvA g s) : InvA g (evEnd g s) := by
         · exact hcn
     · exact h1
 
+theorem invA_evConnEnd (g : Cfg) (s : S) (hi : InvA g s) : InvA g (evConnEnd g s) := by
+  unfold evConnEnd
+  split
+  · exact hi
+  · rename_i hh
+    have hh : s.hung = false := by simpa using hh
+    split
+    · rename_i hcv
+      have hcn := hi.cev hcv
+      have hwa := hi.wadd
+      have hko := hi.kout
+      have hno := hi.nos
+      have hrr := hi.rr
+      have hdi := hi.dis
+      have hcr := hi.cre
+      have hcnr := hi.cnr
+      have hD := D_cResetRead g { s with connecting := false, connEv := false }
+      simp only [D, Prod.mk.injEq] at hD
+      obtain ⟨d1, d2, d3, _, _, _⟩ := hD
+      cases hm : g.mode <;> cases hc : s.closed <;> cases hw : s.isWAdded <;> cases hwl : s.wl <;> cases hr : s.reg <;>
+        (constructor <;> simp_all [cResetRead, pResetRead, kctl])
+    · exact hi
+
+theorem invA_evRearm (g : Cfg) (s : S) (hi : InvA g s) : InvA g (evRearm g s) := by
+  unfold evRearm
+  split
+  · exact hi
+  · rename_i hg
+    have hg2 : s.hung = false ∧ s.connEv = false := by simpa using hg
+    obtain ⟨hh, hcv0⟩ := hg2
+    split
+    · rename_i hre
+      have hreg := hi.rr hre
+      have hm : g.mode = .oneshot := by
+        cases hm : g.mode
+        · exact absurd (hi.nos (by simp [hm])).2 (by simp [hre])
+        · exact absurd (hi.nos (by simp [hm])).2 (by simp [hre])
+        · rfl
+      have hwa := hi.wadd
+      have hko := hi.kout
+      have hdi := hi.dis
+      have hce := hi.cev
+      have hcr := hi.cre hre
+      have hcnr := hi.cnr
+      cases hc : s.closed <;> cases hw : s.isWAdded <;> cases hwl : s.wl <;> cases hcn : s.connecting <;>
+        (constructor <;> simp_all [resetPollerEvent, pResetRead, pModWrite, kctl])
+    · exact hi
+
+theorem invA_evErrClose (g : Cfg) (s : S) (hi : InvA g s) : InvA g (evErrClose s) := by
+  unfold evErrClose
+  split
+  · exact hi
+  · split
+    · split
+      · rename_i hc
+        exact ⟨hi.wadd, hi.kout, hi.nos, hi.rr, fun h => by simp [hc] at h, hi.cev, hi.cre, hi.cnr⟩
+      · have hn := hi.nos
+        have hr := hi.rr
+        have hce := hi.cev
+        have hcr := hi.cre
+        have hcn := hi.cnr
+        constructor <;> simp [flipWE, flip, stopTimer]
+        · exact hn
+        · exact hr
+        · exact hce
+        · exact hcr
+        · exact hcn
+    · exact hi
+
 /-- the arming invariant does not mention the deadline fields -/
 theorem InvA.timer {g : Cfg} {s t : S} (h : InvA g s) (hd : D t = D s) (he : E t = E s) : InvA g t :=
   invA_grow h ⟨he, by simpa [D] using (congrArg (·.1) hd), by simpa [D] using (congrArg (·.2.1) hd),
@@ -680,6 +749,9 @@ theorem invA_step (g : Cfg) (s : S) (op : Op) (hd : InvD g s) (hi : InvA g s)
   | registerDial => exact (invA_registerDial g s hi).timer (D_ghost _ _ _) (E_ghost _ _ _)
   | evTake o i e ks => exact (invA_evTake g s _ i e ks hi).timer (D_ghost _ _ _) (E_ghost _ _ _)
   | evEnd => exact invA_evEnd g s hi
+  | evConnEnd => exact invA_evConnEnd g s hi
+  | evRearm => exact invA_evRearm g s hi
+  | evErrClose => exact invA_evErrClose g s hi
   | flipClosed => exact invA_flipClosed g s hi
   | teardown => exact invA_teardown hi htp
   | setWriteDeadline z => exact invA_setWriteDeadline g s z hi
